@@ -421,10 +421,18 @@ fn main() {
                 })
                 .unwrap_or((0, 1));
             let t0 = Instant::now();
-            let (evals, nontrivial, failure) = cbverif::big_engine::run(&|i, c| match (&one, only) {
-                (Some(o), _) => o == c,
-                (None, Some(k)) => i == k && i % parts == part,
-                (None, None) => i % parts == part,
+            let prefix = arg(&args, "--ops-prefix");
+            let (evals, nontrivial, failure) = cbverif::big_engine::run(&|i, c| {
+                if let Some(p) = &prefix {
+                    if !format!("{:?}", c.op).starts_with(p.as_str()) {
+                        return false;
+                    }
+                }
+                match (&one, only) {
+                    (Some(o), _) => o == c,
+                    (None, Some(k)) => i == k && i % parts == part,
+                    (None, None) => i % parts == part,
+                }
             });
             let mut rep = json!({"evaluations": evals, "distinct_nontrivial": nontrivial, "wall_s": t0.elapsed().as_secs_f64(),
                 "capacity": cbverif::big_engine::BIG, "optimised": !cfg!(debug_assertions)});
